@@ -56,6 +56,11 @@ F_ATTRNAME = 'C12-attr-name-charref'
 F_CDBAD = 'C12-cdata-split-invalid-char-emitted'
 F_ICUSUPP = 'C12-icu-encoding-supplementary'
 F_DTEMPTY = 'C12-doctype-empty-intsubset-asymmetric'
+ALL_EXCLUSIONS = {F_INTSUB, F_NSRED, F_NSCONF, F_11NEL, F_11CTL, F_CDEND, F_CDSUR, F_COMM, F_PI, F_ATTRNAME, F_CDBAD, F_ICUSUPP, F_DTEMPTY}
+# Exclusions in force.  When a defect is fixed in /repo remove its id here (or, for a trial run, name it in the environment variable
+# VERIF_C12_EXCLUSIONS_OFF=id1,id2): the class is then generated again and judged by the unrestricted oracle.
+ACTIVE_EXCLUSIONS = set(ALL_EXCLUSIONS) - set(x for x in os.environ.get('VERIF_C12_EXCLUSIONS_OFF', '').split(',') if x)
+def EX(fid): return fid in ACTIVE_EXCLUSIONS
 INTRINSIC = {'UTF-8', 'UTF-16', 'UTF-16LE', 'UTF-16BE', 'ISO-8859-1', 'US-ASCII', 'windows-1252', 'IBM1140'}
 
 def can_encode(ch, codec):
@@ -247,7 +252,7 @@ def check_roundtrip(case, resp_text, stats=None):
     ns_on = 'ns=1' in case['feat']
     added, conflicts = fixup_emissions(orig, bool(s['discard'])) if ns_on else (0, 0)
     nsred = False
-    if case['lane'] == 'parse' and added and not case.get('strict'):
+    if case['lane'] == 'parse' and added and not case.get('strict') and EX(F_NSRED):
         nsred = True; info['excluded'] = F_NSRED
     # (1) well-formed for Xerces
     p2 = [l for l in sec.get('parse2err', []) if l]
@@ -270,7 +275,7 @@ def check_roundtrip(case, resp_text, stats=None):
     if d: return False, 'reparsed tree differs from the original (canonical dumps):\n%s\noutput: %r' % (d, ser1[:600]), info
     exact = [e for e in norm_dump(orig, ignore_spec, False, False) if e[0] != 'DOCINFO'] == [e for e in norm_dump(rep, ignore_spec, False, False) if e[0] != 'DOCINFO']
     eq = r['EQ']
-    if eq == (True, False) and any(e[0] == 'INTSUB' and (len(e) < 2 or e[1] == '') for e in orig) and not case.get('strict'):
+    if eq == (True, False) and any(e[0] == 'INTSUB' and (len(e) < 2 or e[1] == '') for e in orig) and not case.get('strict') and EX(F_DTEMPTY):
         # <!DOCTYPE a []>: internalSubset "" before, null after the round trip; DOMDocumentTypeImpl::isEqualNode treats that pair as equal in
         # one direction only (finding F_DTEMPTY): input-side predicate, counted
         info['excluded'] = info['excluded'] or F_DTEMPTY; eq = (True, True)
@@ -398,7 +403,7 @@ def xml_literal_ok(c, version):
 RESTRICTED_11 = re.compile('[\x01-\x08\x0b\x0c\x0e-\x1f\x7f-\x84\x86-\x9f]')
 def parse_exclusions(d):
     ex = []
-    if d.doctype:
+    if d.doctype and EX(F_INTSUB):
         for x in d.doctype['decls']:
             if x.where != 'int': continue
             if isinstance(x, xm.EntDecl) and x.kind in ('content', 'attr'):
@@ -411,8 +416,8 @@ def parse_exclusions(d):
                 if re.search('[&<"\t\n\r]', x.dvalue): ex.append(F_INTSUB); break
     if d.version == '1.1':
         cd = all_chardata(d)
-        if any(RESTRICTED_11.search(s) for s in cd): ex.append(F_11CTL)
-        elif any(('\u0085' in s or '\u2028' in s) for s in cd): ex.append(F_11NEL)
+        if any(RESTRICTED_11.search(s) for s in cd) and EX(F_11CTL): ex.append(F_11CTL)
+        elif any(('\u0085' in s or '\u2028' in s) for s in cd) and EX(F_11NEL): ex.append(F_11NEL)
     return ex
 
 def count_elements(n):
@@ -519,13 +524,13 @@ def build_parse_case(d, ns, ere, s, sub, excluded=None):
     excluded = excluded if excluded is not None else []
     enc = 'UTF-16' if s['target'] == 'string' else s['enc']; codec = ENCS[enc][0]
     cd = ''.join(all_chardata(d))
-    if enc not in INTRINSIC and any(ord(ch) > 0xFFFF for ch in cd + text):
+    if EX(F_ICUSUPP) and enc not in INTRINSIC and any(ord(ch) > 0xFFFF for ch in cd + text):
         excluded.append(F_ICUSUPP); s['enc'] = 'UTF-8'; codec = 'utf-8'
-    if any(not can_encode(ch, codec) for a in iter_attrs_all(d) for ch in a.qname):
+    if EX(F_ATTRNAME) and any(not can_encode(ch, codec) for a in iter_attrs_all(d) for ch in a.qname):
         excluded.append(F_ATTRNAME); s['enc'] = 'UTF-8'; codec = 'utf-8'
-    if s['split'] and any(ord(ch) > 0xFFFF and not can_encode(ch, codec) for n in iter_cdata(d) for ch in n.value):
+    if EX(F_CDSUR) and s['split'] and any(ord(ch) > 0xFFFF and not can_encode(ch, codec) for n in iter_cdata(d) for ch in n.value):
         excluded.append(F_CDSUR); s['enc'] = 'UTF-8'; codec = 'utf-8'
-    err_allowed = any(not can_encode(ch, codec) for sv in markup_strings(d, s['split']) for ch in set(sv))
+    err_allowed = any(not can_encode(ch, codec) for sv in markup_strings(d, s['split']) for ch in set(sv)) or any(not can_encode(ch, codec) for a in iter_attrs_all(d) for ch in a.qname)
     if sub == 0 and d.version == '1.0':
         s['sub'] = count_elements(d.root) // 2     # some element in the middle of the document (pre-order index)
     finish_ser(s)
@@ -585,7 +590,7 @@ def build_case_strategy(draw, encs):
             for i in range(draw(st.integers(0, 2))):
                 apfx, auri = draw(st.sampled_from(NS_TABLE[:3] + [('', None), ('', None), ('p', 'urn:q')]))
                 alocal = draw(st.sampled_from(names + ['a1', 'b2']))
-                if apfx and apfx in used and used[apfx] != auri:
+                if apfx and apfx in used and used[apfx] != auri and EX(F_NSCONF):
                     # a second namespace under a prefix already used on this element: inexpressible without renaming the prefix;
                     # the serializer emits xmlns:p twice (finding F_NSCONF) -> class removed by construction, counted
                     excluded.append(F_NSCONF); continue
@@ -618,7 +623,7 @@ def build_case_strategy(draw, encs):
 def build_build_case(nsmode, s, root, misc_before, misc_after, standalone, pre_excluded, stats=None):
     """-> (case | None, excluded-ids, labels)"""
     s = dict(s)
-    if (s['enc'] not in INTRINSIC and s['target'] != 'string') and has_supplementary(root, misc_before, misc_after):
+    if EX(F_ICUSUPP) and (s['enc'] not in INTRINSIC and s['target'] != 'string') and has_supplementary(root, misc_before, misc_after):
         pre_excluded = list(pre_excluded) + [F_ICUSUPP]; s['enc'] = 'UTF-8'
     finish_ser(s)
     enc = 'UTF-16' if s['target'] == 'string' else s['enc']; codec = ENCS[enc][0]
@@ -635,19 +640,19 @@ def build_build_case(nsmode, s, root, misc_before, misc_after, standalone, pre_e
         """remove the classes of known findings by construction (counted)"""
         if n['k'] == 'C':
             v = n['v']
-            if '--' in v or v.endswith('-'):
+            if ('--' in v or v.endswith('-')) and EX(F_COMM):
                 excluded.append(F_COMM); v = v.replace('-', '_')
             n['v'] = v
         elif n['k'] == 'PI':
-            if '?>' in n['v']:
+            if '?>' in n['v'] and EX(F_PI):
                 excluded.append(F_PI); n['v'] = n['v'].replace('?>', '?_')
         elif n['k'] == 'CD':
             v = n['v']
-            if s['split'] and not xml10_char_ok(v):
+            if s['split'] and not xml10_char_ok(v) and EX(F_CDBAD):
                 excluded.append(F_CDBAD); v = ''.join(ch for ch in v if xml10_char_ok(ch))
-            if s['split'] and ']]>' in v:
+            if s['split'] and ']]>' in v and EX(F_CDEND):
                 excluded.append(F_CDEND); v = v.replace(']]>', ']]_')
-            if s['split'] and any(ord(ch) > 0xFFFF and not can_encode(ch, codec) for ch in v):
+            if EX(F_CDSUR) and s['split'] and any(ord(ch) > 0xFFFF and not can_encode(ch, codec) for ch in v):
                 excluded.append(F_CDSUR); v = ''.join(ch for ch in v if not (ord(ch) > 0xFFFF and not can_encode(ch, codec)))
             n['v'] = v
     def emit(n, parent):
@@ -656,7 +661,7 @@ def build_build_case(nsmode, s, root, misc_before, misc_after, standalone, pre_e
         if k == 'E':
             fixed = []
             for (ap, al, au, av) in n['attrs']:
-                if not enc_ok(al):
+                if not enc_ok(al) and EX(F_ATTRNAME):
                     excluded.append(F_ATTRNAME); al = 'n' + str(len(fixed))
                 fixed.append((ap, al, au, av))
             n['attrs'] = fixed
@@ -687,15 +692,17 @@ def build_build_case(nsmode, s, root, misc_before, misc_after, standalone, pre_e
             elif not s['split']:
                 if ']]>' in v: why.append("']]>' in CDATA with split-cdata-sections=false")
                 elif not enc_ok(v): why.append('unencodable character in CDATA with split-cdata-sections=false')
-            elif not enc_ok(v): cdata_split[0] = True; labels.add('cdata-split')
+            elif not enc_ok(v) or ']]>' in v: cdata_split[0] = True; labels.add('cdata-split')
             labels.add('cdata'); note_chars(v)
         elif k == 'C':
             me = new('comment\t' + E(n['v']))
             if not xml10_char_ok(n['v']): why.append('non-XML character in comment')
+            elif '--' in n['v'] or n['v'].endswith('-'): why.append("'--' or trailing '-' in comment")
             elif not enc_ok(n['v']): why.append('unencodable character in comment')
         elif k == 'PI':
             me = new('pi\t%s\t%s' % (E(n['t']), E(n['v'])))
             if not xml10_char_ok(n['v']): why.append('non-XML character in PI')
+            elif '?>' in n['v']: why.append("'?>' in PI data")
             elif not enc_ok(n['v']) or not enc_ok(n['t']): why.append('unencodable character in PI')
         lines.append('append\t%d\t%d' % (parent, me))
     if standalone: lines.append('standalone\t1')
@@ -870,7 +877,7 @@ def worker(ctx):
 
     def prop_parse(c):
         d, ns, ere, s, sub = c
-        if sanitize_intsubset(d):
+        if EX(F_INTSUB) and sanitize_intsubset(d):
             st_.excluded_known[F_INTSUB] += 1
             xm.fix_comments(d)
         ex_ids = parse_exclusions(d)
